@@ -20,7 +20,7 @@ Definition bevent_of_sx (x : sx) : bevent :=
              (p4_of_sx (sx_nth 5 x))
   else if String.eqb k "mref" then
     EMref (sx_str (sx_nth 1 x)) (sx_str (sx_nth 2 x)) (sx_bool (sx_nth 3 x)) (p4_of_sx (sx_nth 4 x))
-  else if String.eqb k "return" then EReturn (sx_str (sx_nth 1 x))
+  else if String.eqb k "return" then EReturn (sx_str (sx_nth 1 x)) (sx_bool (sx_nth 2 x))
   else EAnnot (sx_str (sx_nth 1 x)).
 
 Definition member_of_sx (x : sx) : jmember :=
